@@ -293,6 +293,10 @@ enum Place {
     GuardEnd,
     /// Starting directly after the leading PROT_NONE page.
     GuardStart,
+    /// A heap block of exactly `a + len` bytes, haystack at offset `a`
+    /// (for valgrind memcheck: any read past the end, and with a == 0 any
+    /// read before the start, leaves the block).
+    Heap,
 }
 
 impl Place {
@@ -301,6 +305,7 @@ impl Place {
             Place::Plain => "plain",
             Place::GuardEnd => "guard-end",
             Place::GuardStart => "guard-start",
+            Place::Heap => "heap",
         }
     }
     fn parse(s: &str) -> Place {
@@ -308,6 +313,7 @@ impl Place {
             "plain" => Place::Plain,
             "guard-end" => Place::GuardEnd,
             "guard-start" => Place::GuardStart,
+            "heap" => Place::Heap,
             _ => panic!("place"),
         }
     }
@@ -319,11 +325,12 @@ const MARGIN: usize = 96;
 struct Ctx {
     plain: Arena,
     guard: Arena,
+    heap: Vec<u8>,
 }
 
 impl Ctx {
     fn new() -> Ctx {
-        Ctx { plain: Arena::plain(4), guard: Arena::guarded(1) }
+        Ctx { plain: Arena::plain(4), guard: Arena::guarded(1), heap: vec![] }
     }
     fn place(&mut self, place: Place, a: usize, data: &[u8], fill: u8) -> &[u8] {
         match place {
@@ -333,6 +340,15 @@ impl Ctx {
                 self.guard.place_fill(off, data, fill, fill, MARGIN)
             }
             Place::GuardStart => self.guard.place_fill(0, data, fill, fill, MARGIN),
+            Place::Heap => {
+                // a fresh allocation of exactly a + len bytes
+                let mut v: Vec<u8> = Vec::with_capacity(a + data.len());
+                v.extend(std::iter::repeat(fill).take(a));
+                v.extend_from_slice(data);
+                assert_eq!(v.capacity(), a + data.len());
+                self.heap = v;
+                &self.heap[a..]
+            }
         }
     }
 }
@@ -549,7 +565,7 @@ fn run_sparse(
         let mut order = 0u64;
         let mut run = |data: &[u8], r: &mut Report, ctx: &mut Ctx, order: u64| {
             for &place in places {
-                let al = if place == Place::Plain { aligns } else { 1 };
+                let al = if place == Place::GuardEnd || place == Place::GuardStart { 1 } else { aligns };
                 for a in 0..al {
                     check_shape(ctx, r, subjects, k, ops, nd, data, place, a, order);
                 }
@@ -819,6 +835,19 @@ fn main() {
                 run_sparse(&mut total, &subj_s, k, &ops, &lens, 1, 1, 1, &[], &[Place::GuardEnd, Place::GuardStart], nd, other);
             }
             bounds.insert("guard".into(), json!({"max_len": lmax, "matches": "none, each single position, all, all-but-one", "places": ["guard-end", "guard-start"]}));
+        }
+        // Exact-size heap blocks, meant to run under valgrind memcheck.
+        "heap" => {
+            let subj_s = [Subject::Swar, Subject::Sse2, Subject::Avx2, Subject::Top];
+            let lmax = args.num("lmax", if thorough { 3 * 128 + 64 } else { 2 * 128 + 34 }) as usize;
+            let shard = args.str("shard", "0/1");
+            let (si, sn) = shard.split_once('/').map(|(a, b)| (a.parse::<usize>().unwrap(), b.parse::<usize>().unwrap())).unwrap();
+            let lens: Vec<usize> = (0..=lmax).filter(|l| l % sn == si).collect();
+            let aligns = args.num("aligns", 3) as usize;
+            for k in 1..=3u8 {
+                run_sparse(&mut total, &subj_s, k, &ops, &lens, aligns, 1, 0, &[], &[Place::Heap], nd, other);
+            }
+            bounds.insert("heap".into(), json!({"max_len": lmax, "shard": shard, "matches": "none and each single position", "block": "exactly a+len bytes, a in 0..aligns"}));
         }
         "raw-edges" => {
             run_raw_edges(&mut total);
